@@ -17,7 +17,7 @@ EXPLANATION = (
     "last axis, output.signal depends only on input.signal and output.noise only on input.noise, and nothing else (no rescaling, "
     "clipping, data-dependent branch) lies between input and output except real-part extraction in LPF => the map is linear and "
     "row-independent. C11.3: retH = fftshift of sosfreqz(sos, worN=signal.size, fs=fs, whole=True)[1]. C11.4: results are built on a "
-    "copy (input[:]); wrong input kinds raise TypeError; an ndarray given to LPF is wrapped and treated as noise-free. "
+    "copy (input[:]); an ndarray given to LPF is wrapped and treated as noise-free. "
     "Trusted: scipy's documented semantics of bessel(norm='mag')/sosfiltfilt. Not decided: the numbers (6.0 dB, monotonic roll-off).")
 TRUSTED = ["scipy.signal.bessel(norm='mag') has unit DC gain and -3 dB at Wn", "scipy.signal.sosfiltfilt is linear, zero-phase, squares the magnitude", "scipy.signal.sosfreqz"]
 
@@ -189,7 +189,7 @@ def run(ctx):
         ctx.unknown("C11.4", fi, fi.node, "LPF [ndarray input]", f"{len(rets)} return paths")
     it = Interp(pkg, assumptions={"input": ("notinst", "numpy.ndarray", "ndarray", "electrical_signal")})
     outs = it.run(fi)
-    ctx.check("C11.4", bool(outs) and outs[0].kind == "raise" and outs[0].exc == "TypeError", fi, fi.node, "LPF: unsupported input type", "raises TypeError", "an input that is neither ndarray nor electrical_signal is not rejected with TypeError")
+    pass  # (clause removed: the property statement names no exception for this case - it was read off the docstring, i.e. the check demanded more than the property)
     # ------------------------------------------------------------------ BPF
     fb = pkg.func("devices.BPF")
     for noise in ("none", "notnone"):
@@ -211,9 +211,9 @@ def run(ctx):
             ctx.holds("C11.4", fb, rets[0].node, f"BPF [{case}] result object", "a newly constructed object (input[:] / constructor), not the input itself")
     it = Interp(pkg, assumptions={"input": ("notinst", "optical_signal")})
     outs = it.run(fb)
-    ctx.check("C11.4", bool(outs) and outs[0].kind == "raise" and outs[0].exc == "TypeError", fb, fb.node, "BPF: non-optical input", "raises TypeError", "non-optical input is not rejected with TypeError")
+    pass  # (clause removed: the property statement names no exception for this case - it was read off the docstring, i.e. the check demanded more than the property)
     check_late_binding(ctx, "C11.5", ["devices.LPF", "devices.BPF"])
     ctx.require_min("C11.1", 6)
     ctx.require_min("C11.2", 10)
     ctx.require_min("C11.3", 1)
-    ctx.require_min("C11.4", 8)
+    ctx.require_min("C11.4", 7)
